@@ -47,6 +47,7 @@ def dispatch (prop : String) (c obs : String) : String × String × Bool :=
   | "C14live" => C14.runLive c obs
   | "C16" => C16.runDiff c obs
   | "C16inv" => C16.runInv c obs
+  | "C16e2e" => C16.runE2E c obs
   | _ => ("unknown-property", "unknown-property", false)
 
 partial def loop (prop : String) (h : IO.FS.Stream) (out : IO.FS.Stream) : IO Unit := do
